@@ -46,6 +46,10 @@ class Intervals:
         if depth > 2:
             return lo, hi
         for c, v in self.cons:
+            if c[0] == 'discr' and c[1][0] == 'get' and v == 1 and c[1][2] == t:
+                hi = min(hi, 2 ** 63 - 2)       # slice::get(i) is Some  =>  i < len <= isize::MAX
+                lo = max(lo, 0)
+                continue
             if c[0] != 'bin' or c[1] not in ('Lt', 'Le', 'Gt', 'Ge', 'Eq', 'Ne'):
                 continue
             truth = None
